@@ -1,3 +1,5 @@
+//go:build verif
+
 // implrun runs the real goht implementation on cases given in the line protocol shared with
 // the extracted Coq model (ocaml/driver.ml) and prints one canonical result line per case.
 package main
